@@ -67,6 +67,7 @@ impl<T, N: ArrayLength> IntrusiveArrayBuilder<T, N> {
     body = ('let ghost r0 = source.returned(); let mut __k: usize = 0; loop invariant_except_break '
             'self.wf(), self.position == __k, __k <= N::n(), source.returned().len() == r0.len() + __k, source.returned().subrange(0, r0.len() as int) == r0, '
             'forall|j: int| 0 <= j < __k ==> (#[trigger] source.returned()[r0.len() + j]) == Some(self.built()[j]), '
+            'invariant source.inv(), source.konst() == old(source).konst(), '
             'ensures self.wf(), source.returned().len() == r0.len() + self.position + (if self.position < N::n() { 1int } else { 0int }), '
             'source.returned().subrange(0, r0.len() as int) == r0, '
             'forall|j: int| 0 <= j < self.position ==> (#[trigger] source.returned()[r0.len() + j]) == Some(self.built()[j]), '
@@ -81,8 +82,9 @@ impl<T, N: ArrayLength> IntrusiveArrayBuilder<T, N> {
             'if j < __k - 1 { assert(self.built()[j] == bb[j]); assert(source.returned()[r0.len() + j] == rb[r0.len() + j]); } } } }')
     ex.check_supported('extend', body)
     g.emit_fn(Fn('extend', INT, f['line'], f['sig'], 'pub fn extend<I: ForeignIter<T>>(&mut self, source: &mut I)', body,
-                 ['old(self).wf()', 'old(self).position == 0', '!polled_after_none(old(source).returned())'],
+                 ['old(self).wf()', 'old(self).position == 0', '!polled_after_none(old(source).returned())', 'old(source).inv()'],
                  [('wf', ['C03', 'C04'], 'final(self).wf()'),
+                  ('source-inv', ['C04', 'C07'], 'final(source).inv() && final(source).konst() == old(source).konst()'),
                   ('polls', ['C07'], 'final(source).returned().len() == old(source).returned().len() + final(self).position + (if final(self).position < N::n() { 1int } else { 0int })'),
                   ('prefix', ['C07'], 'final(source).returned().subrange(0, old(source).returned().len() as int) == old(source).returned()'),
                   ('in-order', ['C07'], 'forall|k: int| 0 <= k < final(self).position ==> (#[trigger] final(source).returned()[old(source).returned().len() + k]) == Some(final(self).built()[k])'),
@@ -196,8 +198,9 @@ impl<T, N: ArrayLength> IntrusiveArrayBuilder<T, N> {
     ex.check_supported('try_from_iter', body)
     g.emit_fn(Fn('try_from_iter', 'src/lib.rs', f['line'], f['sig'],
                  'pub fn try_from_iter<T, N: ArrayLength, I: ForeignIter<T>>(iter: &mut I) -> (ret: Result<GenericArray<T, N>, LengthError>)', body,
-                 ['old(iter).returned().len() == 0'],
-                 [('at-most-N+1-polls', ['C07'], 'final(iter).returned().len() <= N::n() + 1'),
+                 ['old(iter).returned().len() == 0', 'old(iter).inv()'],
+                 [('source-inv', ['C04', 'C07'], 'final(iter).inv() && final(iter).konst() == old(iter).konst()'),
+                  ('at-most-N+1-polls', ['C07'], 'final(iter).returned().len() <= N::n() + 1'),
                   ('never-polled-after-None', ['C07'], '!polled_after_none(final(iter).returned())'),
                   ('ok-means-exactly-N-in-order', ['C07', 'C04'], 'ret is Ok ==> final(iter).returned().len() == N::n() + 1 && final(iter).returned().last().is_none() '
                    '&& forall|k: int| 0 <= k < N::n() ==> (#[trigger] final(iter).returned()[k]) == Some(ret->Ok_0.elems()[k])'),
@@ -250,6 +253,181 @@ impl<T, N: ArrayLength> IntrusiveArrayBuilder<T, N> {
 
     generate_like('src/lib.rs', 'unsafe impl<T, N: ArrayLength> GenericSequence<T> for GenericArray<T, N>', 'generate')
     generate_like('src/impl_alloc.rs', 'unsafe impl<T, N: ArrayLength> GenericSequence<T> for Box<GenericArray<T, N>>', 'generate_boxed')
+
+    # =====================================================================================================
+    # ArrayConsumer, FromIterator::from_iter, FunctionalSequence::{fold, map} for GenericArray (C08, C04, C03)
+    # =====================================================================================================
+    AC = 'impl<T, N: ArrayLength> ArrayConsumer<T, N>'
+    ACDROP = 'impl<T, N: ArrayLength> Drop for ArrayConsumer<T, N>'
+    g.raw(
+        '// ===== extracted: src/internal.rs ArrayConsumer =====\n'
+        '// rule R-slots: `array: ManuallyDrop<GenericArray<T, N>>` becomes the slot ledger\n'
+        'pub struct ArrayConsumer<T, N: ArrayLength> { pub array: Slots<T, N>, pub position: usize }\n'
+        'impl<T, N: ArrayLength> ArrayConsumer<T, N> {\n'
+        '    // the guard\'s invariant: exactly the slots from `position` on are still owned\n'
+        '    pub open spec fn wf(&self) -> bool {\n'
+        '        &&& self.position <= N::n()\n'
+        '        &&& self.array.ok()\n'
+        '        &&& forall|k: int| 0 <= k < N::n() ==> ((#[trigger] self.array.view()[k]).is_some() <==> k >= self.position)\n'
+        '    }\n')
+    f, body, n = carry(INT, AC, 'new')
+    stats = {}
+    body = ex.apply_rules(body, [('R-slots', r'ManuallyDrop::new\(array\)', 'array.slots')], stats)
+    ex.check_supported('consumer_new', body)
+    g.emit_fn(Fn('consumer_new', INT, f['line'], f['sig'], 'pub fn new(array: GenericArray<T, N>) -> (r: Self)', body,
+                 ['array.slots.ok()', 'array.slots.all_live()'], [('wf', ['C03', 'C04'], 'r.wf() && r.position == 0 && r.array == array.slots')], stats, n, PROPS))
+    f, body, n = carry(INT, ACDROP, 'drop')
+    stats = {}
+    body = ex.apply_rules(body, [
+        ('R-misc', r'\bunsafe \{', '{'),
+        ('R-dip', r'ptr::drop_in_place\(self\.array\.get_unchecked_mut\(self\.position\.\.\)\);', 'self.array.drop_range(self.position, N::usize_());'),
+    ], stats)
+    ex.check_supported('consumer_drop', body)
+    g.emit_fn(Fn('consumer_drop', INT, f['line'], f['sig'], 'pub fn drop_impl(&mut self)', body, ['old(self).wf()'],
+                 [('releases-unconsumed', ['C03', 'C04'], 'final(self).array.ok() && final(self).array.all_dead()')], stats, n, PROPS))
+    g.raw('}\n')
+
+    # ---- FromIterator::from_iter ----
+    f = g.extract_method('src/lib.rs', 'impl<T, N: ArrayLength> FromIterator<T> for GenericArray<T, N>', 'from_iter')
+    body = ex.normalize(f['body'])
+    n = ex.statements(body)
+    stats = {}
+    body = ex.apply_rules(body, [
+        ('R-call', r'Self::try_from_iter\(iter\)', 'try_from_iter::<T, N, I>(iter)'),
+        ('R-panic', r'Ok\(res\) => res,', 'Ok(res) => PanicOr::Ret(res),'),
+        ('R-panic', r'Err\(_\) => from_iter_length_fail\(N::USIZE\),?', 'Err(_) => PanicOr::Panic,'),
+    ], stats)
+    ex.check_supported('from_iter', body)
+    # syntactic part of C07: the panic message names the expected length
+    fail = g.extract_free('src/lib.rs', 'from_iter_length_fail')
+    if not re.search(r'panic!\("GenericArray::from_iter expected \{length\} items"\)', fail['body']):
+        raise ex.Unsupported('from_iter_length_fail does not panic with the `expected {length} items` message (syntactic clause of C07)')
+    g.emit_fn(Fn('from_iter', 'src/lib.rs', f['line'], f['sig'], 'pub fn from_iter<T, N: ArrayLength, I: ForeignIter<T>>(iter: &mut I) -> (ret: PanicOr<GenericArray<T, N>>)', body,
+                 ['old(iter).returned().len() == 0', 'old(iter).inv()'],
+                 [('source-inv', ['C04', 'C07'], 'final(iter).inv() && final(iter).konst() == old(iter).konst()'),
+                  ('polls', ['C07'], 'final(iter).returned().len() <= N::n() + 1 && !polled_after_none(final(iter).returned())'),
+                  ('returns-means-exactly-N-in-order', ['C07'], 'ret is Ret ==> final(iter).returned().len() == N::n() + 1 && final(iter).returned().last().is_none() '
+                   '&& forall|k: int| 0 <= k < N::n() ==> (#[trigger] final(iter).returned()[k]) == Some(ret->Ret_0.elems()[k])'),
+                  ('panics-only-with-a-reason', ['C07'], 'ret is Panic ==> ( old(iter).hint().0 > N::n() || (old(iter).hint().1 is Some && old(iter).hint().1->Some_0 < N::n()) '
+                   '|| (exists|k: int| 0 <= k < final(iter).returned().len() && k < N::n() && (#[trigger] final(iter).returned()[k]).is_none()) '
+                   '|| (final(iter).returned().len() == N::n() + 1 && final(iter).returned().last().is_some()) )')],
+                 stats, n, ['C04', 'C07']))
+
+    FS = 'impl<T, N: ArrayLength> FunctionalSequence<T> for GenericArray<T, N>'
+    # ---- FunctionalSequence::fold ----
+    f = g.extract_method('src/lib.rs', FS, 'fold')
+    body = ex.normalize(f['body'])
+    n = ex.statements(body)
+    stats = {}
+    body = ex.apply_rules(body, [
+        ('R-misc', r'\bunsafe \{', '{'),
+        ('R-mutself', r'ArrayConsumer::new\(self\)', 'ArrayConsumer::new(this)'),
+        ('R-guard', r'let \(array_iter, position\) = source\.iter_position\(\); ', ''),
+    ], stats)
+    ml = re.search(r'array_iter\.fold\(init, \|acc, src\| \{ (.*?) f\(acc, value\) \}\)', body)
+    if not ml:
+        raise ex.Unsupported('fold: array_iter.fold(init, |acc, src| {..; f(acc, value)}) not found (rule R-iter)')
+    inner = ml.group(1)
+    inner, k1 = re.subn(r'ptr::read\(src\)', 'source.array.take(src)', inner)
+    inner, k2 = re.subn(r'\*position \+= 1;', 'source.position += 1;', inner)
+    if k1 != 1 or k2 != 1:
+        raise ex.Unsupported('fold: closure body is not {let value = ptr::read(src); *position += 1; f(acc, value)}')
+    stats.update({'R-iter': 1, 'R-read': 1, 'R-foreign': 1, 'R-drop': 1})
+    loop = ('{ let mut acc = init; let mut __k: usize = 0; while __k < N::usize_() invariant source.wf(), source.position == __k, __k <= N::n(), '
+            'forall|j: int| __k <= j < N::n() ==> (#[trigger] source.array.view()[j]) == Some(e0[j]), f.log().len() == __k, '
+            'forall|j: int| 0 <= j < __k ==> (#[trigger] f.log()[j]).1 == e0[j], __k == 0 ==> acc == init, __k > 0 ==> f.log()[0].0 == init && acc == f.log().last().2, '
+            'forall|j: int| 0 < j < __k ==> (#[trigger] f.log()[j]).0 == f.log()[j - 1].2, decreases N::n() - __k, { let src = __k; '
+            + inner + ' proof { assert(source.wf()) /*OB:fold.unwind@closure:C04*/; assert(value == e0[__k as int]); } acc = f.call(acc, value); __k += 1; } '
+            'let __ret = acc; source.drop_impl(); __ret }')
+    body = 'let ghost e0 = this.elems(); ' + body[:ml.start()] + loop + body[ml.end():]
+    ex.check_supported('fold', body)
+    LOG = 'final(f).log()'
+    g.emit_fn(Fn('fold', 'src/lib.rs', f['line'], f['sig'], 'pub fn fold<T, U, N: ArrayLength, F: Foreign2<U, T, U>>(this: GenericArray<T, N>, init: U, f: &mut F) -> (ret: U)', body,
+                 ['this.slots.ok()', 'this.slots.all_live()', 'old(f).log().len() == 0'],
+                 [('once-per-index', ['C08'], LOG + '.len() == N::n()'),
+                  ('ascending', ['C08'], 'forall|k: int| 0 <= k < N::n() ==> (#[trigger] ' + LOG + '[k]).1 == this.elems()[k]'),
+                  ('left-fold', ['C08'], '(N::n() == 0 ==> ret == init) && (N::n() > 0 ==> ' + LOG + '[0].0 == init && ret == ' + LOG + '.last().2) '
+                   '&& forall|k: int| 0 < k < N::n() ==> (#[trigger] ' + LOG + '[k]).0 == ' + LOG + '[k - 1].2')],
+                 stats, n, ['C03', 'C04', 'C08']))
+
+    # ---- FunctionalSequence::map: closure conversion of the lazy pipeline handed to from_iter (rule R-pipe) ----
+    f = g.extract_method('src/lib.rs', FS, 'map')
+    body = ex.normalize(f['body'])
+    n = ex.statements(body)
+    stats = {}
+    body = ex.apply_rules(body, [
+        ('R-misc', r'\bunsafe \{', '{'),
+        ('R-mutself', r'let mut source = ArrayConsumer::new\(self\);', 'let source = ArrayConsumer::new(this);'),
+        ('R-guard', r'let \(array_iter, position\) = source\.iter_position\(\); ', ''),
+    ], stats)
+    ml = re.search(r'FromIterator::from_iter\(array_iter\.map\(\|src\| \{ (.*?) f\(value\) \}\)\)', body)
+    if not ml:
+        raise ex.Unsupported('map: FromIterator::from_iter(array_iter.map(|src| {..; f(value)})) not found (rule R-pipe)')
+    inner = ml.group(1)
+    inner, k1 = re.subn(r'ptr::read\(src\)', 'self.source.array.take(src)', inner)
+    inner, k2 = re.subn(r'\*position \+= 1;', 'self.source.position += 1;', inner)
+    if k1 != 1 or k2 != 1:
+        raise ex.Unsupported('map: closure body is not {let value = ptr::read(src); *position += 1; f(value)}')
+    stats.update({'R-pipe': 1, 'R-read': 1, 'R-foreign': 1, 'R-drop': 1})
+    g.raw("""
+// ===== closure conversion (rule R-pipe) of the pipeline in FunctionalSequence::map =====
+//   fields = the captured variables (the consumer that iter_position() aliases, the closure), k = cursor of the slice
+//   iterator; next() = slice::Iter::next followed by the closure body VERBATIM (modulo R-read and the alias substitution)
+pub struct MapPipe<T, U, N: ArrayLength, F: Foreign1<T, U>> {
+    pub source: ArrayConsumer<T, N>,
+    pub k: usize,
+    pub f: F,
+    pub ret: Ghost<Seq<Option<U>>>,
+    pub elems0: Ghost<Seq<T>>,
+    pub _u: core::marker::PhantomData<U>,
+}
+impl<T, U, N: ArrayLength, F: Foreign1<T, U>> ForeignIter<U> for MapPipe<T, U, N, F> {
+    type K = Seq<T>;
+    open spec fn konst(&self) -> Seq<T> { self.elems0@ }
+    open spec fn returned(&self) -> Seq<Option<U>> { self.ret@ }
+    open spec fn hint(&self) -> (usize, Option<usize>) { ((N::n() - self.k) as usize, Some((N::n() - self.k) as usize)) }
+    open spec fn inv(&self) -> bool {
+        &&& self.source.wf() && self.k <= N::n() && self.elems0@.len() == N::n()
+        &&& (self.k < N::n() ==> self.source.position == self.k)
+        &&& (self.k == N::n() ==> self.source.position == N::n())
+        &&& forall|j: int| self.source.position <= j < N::n() ==> (#[trigger] self.source.array.view()[j]) == Some(self.elems0@[j])
+        &&& self.f.log().len() == self.source.position
+        &&& forall|j: int| 0 <= j < self.source.position ==> (#[trigger] self.f.log()[j]).0 == self.elems0@[j]
+        &&& self.ret@.len() >= self.source.position
+        &&& forall|j: int| 0 <= j < self.source.position ==> (#[trigger] self.ret@[j]) == Some(self.f.log()[j].1)
+        &&& forall|j: int| self.source.position <= j < self.ret@.len() ==> (#[trigger] self.ret@[j]).is_none()
+        &&& (self.ret@.len() > self.source.position ==> self.k == N::n())
+    }
+    fn next(&mut self) -> (r: Option<U>)
+    {
+        if self.k >= N::usize_() {
+            proof { self.ret = Ghost(self.ret@.push(None)); }
+            return None;
+        }
+        let src = self.k;
+        self.k += 1;
+""")
+    g.raw(ex.pretty(inner + ' proof { assert(self.source.wf()) /*OB:map.unwind@closure:C04*/; } let r = self.f.call(value); proof { self.ret = Ghost(self.ret@.push(Some(r))); } Some(r)'))
+    g.raw("""    }
+    fn size_hint(&self) -> (r: (usize, Option<usize>)) { (N::usize_() - self.k, Some(N::usize_() - self.k)) }
+}
+""")
+    pipe = ('{ let mut pipe = MapPipe { source: source, k: 0, f: f, ret: Ghost(Seq::empty()), elems0: Ghost(e0), _u: core::marker::PhantomData }; '
+            'proof { assert(pipe.inv()); } let r = from_iter::<U, N, MapPipe<T, U, N, F>>(&mut pipe); '
+            'proof { assert(pipe.elems0@ == e0); assert(pipe.source.position == N::n()); '
+            'assert forall|k: int| 0 <= k < N::n() implies (#[trigger] r->Ret_0.elems()[k]) == pipe.f.log()[k].1 by { '
+            'assert(pipe.returned()[k] == Some(r->Ret_0.elems()[k])); assert(pipe.ret@[k] == Some(pipe.f.log()[k].1)); } } '
+            'let MapPipe { source, k: _, f, ret: _, elems0: _, _u: _ } = pipe; let mut source = source; source.drop_impl(); (r, f) }')
+    body = 'let ghost e0 = this.elems(); ' + body[:ml.start()] + pipe + body[ml.end():]
+    ex.check_supported('map', body)
+    g.fn_spans.append(('map', len(g.lines) - 40, len(g.lines), ['C03', 'C04', 'C08']))
+    g.emit_fn(Fn('map', 'src/lib.rs', f['line'], f['sig'], 'pub fn map<T, U, N: ArrayLength, F: Foreign1<T, U>>(this: GenericArray<T, N>, f: F) -> (ret: (PanicOr<GenericArray<U, N>>, F))', body,
+                 ['this.slots.ok()', 'this.slots.all_live()', 'f.log().len() == 0'],
+                 [('never-the-length-panic', ['C08'], 'ret.0 is Ret'),
+                  ('once-per-index', ['C08'], 'ret.1.log().len() == N::n()'),
+                  ('ascending', ['C08'], 'forall|k: int| 0 <= k < N::n() ==> (#[trigger] ret.1.log()[k]).0 == this.elems()[k]'),
+                  ('result-k-at-index-k', ['C08'], 'forall|k: int| 0 <= k < N::n() ==> (#[trigger] ret.0->Ret_0.elems()[k]) == ret.1.log()[k].1')],
+                 stats, n, ['C03', 'C04', 'C08']))
     g.raw('proof fn canary() { assert(false); } /*OB:canary:*/')
     g.raw('} // verus!\nfn main() {}\n')
 
